@@ -149,6 +149,13 @@ def build_corpus(tier, rng):
                 dms = [DM("other", "repr(%s)" % req), DM("derive", paths=["Hash"])]
                 it = Item("E", vs if not before else copy.deepcopy(vs), repr=own, dmetas=dms if before else dms[::-1])
                 items.append(("repr-requested", it))
+    # ANY attribute may be passed through to a generated VARIANT: a bare word (`default`, with Default derived), `name = value`, a list
+    from vlib.defs import raw as raw_
+    for j in range(2):
+        vs = [Variant("Idle", "unit", dmetas=[raw_("default")]), Variant("Busy", "tuple", [Field("u8")], dmetas=[raw_('doc = "the busy one"')]),
+              Variant("Done", "named", [Field("i32", "a")], dmetas=[raw_("allow(dead_code)"), raw_('cfg_attr(all(), doc = "x")')]), Variant("Off", "unit", [], [DISABLED], dmetas=[raw_('doc = "off"')])]
+        it = Item("E", vs if j == 0 else vs[::-1], dmetas=[DM("derive", paths=["Default", "Hash"])] + ([DM("name", "Phase")] if j else []))
+        items.append(("variant-passthrough", it))
     # the ENUM is named by a raw identifier: the generated enum is named after the un-rawed name (F15)
     items.append(("raw-enum-name", Item("r#type", [Variant("A", "tuple", [Field("u8")]), Variant("B", "unit"), Variant("Cc", "named", [Field("i32", "a")])])))
     items.append(("raw-enum-name", Item("r#match", [Variant("A", "unit"), Variant("B", "unit", discr=4)], repr="u8", dmetas=[DM("derive", paths=["strum::EnumIter", "Hash"])])))
